@@ -152,6 +152,43 @@ theorem and_error_origin (rs : List Res) : ∀ i ne e, andLoop i ne rs = .err e 
       exact ⟨0, e', by simp, by simpa using h.symm⟩
     | panic => simp [andLoop] at h
 
+theorem or_error_origin (rs : List Res) : ∀ i ne e, orLoop i ne rs = .err e →
+    ∃ (j : Nat) (e' : Err), rs[j]? = some (Res.err e') ∧ e = e'.wrap (.orArg (i + j)) := by
+  induction rs with
+  | nil => intro i ne e h; cases ne <;> simp [orLoop] at h
+  | cons r rs ih =>
+    intro i ne e h
+    cases r with
+    | val v =>
+      simp only [orLoop] at h
+      split at h
+      · cases h
+      · obtain ⟨j, e', hj, he⟩ := ih _ _ _ h
+        exact ⟨j + 1, e', by simpa using hj, by rw [he]; congr 2; omega⟩
+    | err e' =>
+      simp only [orLoop, Res.err.injEq] at h
+      exact ⟨0, e', by simp, by simpa using h.symm⟩
+    | panic => simp [orLoop] at h
+
+theorem argLoop_err (pre : List Value) (e : Err) (post : List Res) : ∀ i,
+    argLoop i (pre.map Res.val ++ .err e :: post) = .error (.err (e.wrap (.fnArg (i + pre.length)))) := by
+  induction pre with
+  | nil => intro i; simp [argLoop]
+  | cons v vs ih =>
+    intro i
+    simp only [List.map_cons, List.cons_append, argLoop, ih (i + 1), List.length_cons]
+    congr 4; omega
+
+/-- function calls are *not* short-circuiting: all arguments are evaluated before the NULL checks, so the first
+    failing argument's error is the result even when an earlier argument is NULL -/
+theorem call_error_reached (fn : List Value → Res) (ncs : List Nat) (env : List (List Value)) (args : List Expr)
+    (pre : List Value) (e : Err) (post : List Res)
+    (h : evalList env args = pre.map Res.val ++ .err e :: post) :
+    eval env (.call fn ncs args) = .err (e.wrap (.fnArg pre.length)) := by
+  simp only [eval]
+  rw [evalArgs_eq, h, argLoop_err]
+  simp
+
 /-! ## NOT, strict functions and `nullCheckIndices` -/
 
 /-- the generated table: `not` is strict, the six comparisons are strict, `is null` / `is not null` are not -/
